@@ -14,7 +14,10 @@ import (
 	"fmt"
 	"os"
 	"regexp"
+	"runtime/debug"
+	"runtime/pprof"
 	"strings"
+	"time"
 
 	capnp "capnproto.org/go/capnp/v3"
 	"capnproto.org/go/capnp/v3/internal/verif/hostile"
@@ -100,7 +103,7 @@ var allLimits = []limits{{0, 0}, {64, 0}, {1 << 40, 0}, {0, 3}, {64, 3}, {1 << 4
 // messages whose pointer graph is cyclic / heavily shared or that declare
 // huge lists (time and memory at the default budget are exponential in the
 // depth limit resp. gigabytes; C02 owns the budget accounting).
-const consumerClamp = 8 << 10
+const consumerClamp = 4 << 10
 
 // ---- walker ----
 
@@ -113,8 +116,22 @@ type walker struct {
 	objs      int
 	prev      capnp.Ptr
 	expensive bool
-	typed     bool // run the schema-typed consumers at the root
+	md        mode
 }
+
+// mode selects which recursive consumers a walk applies.
+type mode struct {
+	consumers bool            // Equal, SetRoot, Canonicalize
+	types     []hostile.Typed // text.Marshal / pogs.Extract at the root struct
+}
+
+var (
+	accessorsOnly = mode{}
+	untyped       = mode{consumers: true}
+	typedAll      = mode{consumers: true, types: hostile.Types}
+	typedZ        = mode{consumers: true, types: hostile.Types[:1]}
+	typedPlain    = mode{consumers: true, types: hostile.Types[1:]}
+)
 
 func (w *walker) fail(key, format string, a ...interface{}) {
 	w.r.Fail(key, fmt.Sprintf("%s segments=%s: ", w.ctx, hexSegs(w.src))+fmt.Sprintf(format, a...))
@@ -145,6 +162,10 @@ func (w *walker) guarded(f func()) {
 
 const maxDepth = 6
 
+// recursive consumers (Equal, SetRoot, Canonicalize, typed) are applied to
+// the root object, its direct children and the first element of a root list
+const consumerDepth = 1
+
 func (w *walker) ptr(p capnp.Ptr, depth int) {
 	if !p.IsValid() {
 		return
@@ -169,13 +190,15 @@ func (w *walker) ptr(p capnp.Ptr, depth int) {
 	if q, err := p.Default(nil); err == nil {
 		_ = q
 	}
-	w.guarded(func() {
-		capnp.Equal(p, p)
-		if w.prev.IsValid() {
-			capnp.Equal(p, w.prev)
-			capnp.Equal(w.prev, p)
-		}
-	})
+	if depth <= consumerDepth && w.md.consumers {
+		w.guarded(func() {
+			capnp.Equal(p, p)
+			if w.prev.IsValid() {
+				capnp.Equal(p, w.prev)
+				capnp.Equal(w.prev, p)
+			}
+		})
+	}
 	_ = capnp.SamePtr(p, w.prev)
 	w.prev = p
 	s, l, in := p.Struct(), p.List(), p.Interface()
@@ -190,7 +213,7 @@ func (w *walker) ptr(p capnp.Ptr, depth int) {
 	if l.IsValid() {
 		w.list(l, depth)
 	}
-	if depth <= 1 {
+	if depth <= consumerDepth && w.md.consumers {
 		w.consume(p, depth == 0)
 	}
 }
@@ -293,7 +316,7 @@ func (w *walker) list(l capnp.List, depth int) {
 		}
 		if st := l.Struct(i); st.IsValid() && depth < maxDepth {
 			w.strct(st, depth+1)
-			if depth == 0 && i == 0 {
+			if depth == 0 && i == 0 && w.md.consumers {
 				w.consume(st.ToPtr(), false)
 			}
 		}
@@ -331,10 +354,10 @@ func (w *walker) consume(p capnp.Ptr, typed bool) {
 		return
 	}
 	w.guarded(func() { capnp.Canonicalize(s) })
-	if !typed || !w.typed {
+	if !typed {
 		return
 	}
-	for _, t := range hostile.Types {
+	for _, t := range w.md.types {
 		t := t
 		w.guarded(func() {
 			hostile.TextMarshal(t, s)
@@ -356,8 +379,40 @@ func errClass(err error) string {
 
 // walkOne opens the message under one framing / limit configuration and
 // walks it.  It returns the number of objects handed out.
-func walkOne(r *vlib.Rec, mem *hostile.Mem, contents [][]byte, framing int, arena capnp.Arena, lim limits, typed, expensive bool) int {
+var frameRe = regexp.MustCompile(`capnproto\.org/go/capnp/v3[A-Za-z0-9_/.]*\.(\(\*?[A-Za-z0-9_]+\)\.)?[A-Za-z0-9_]+`)
+
+// panicKey builds a stable classification key: panic text with numbers
+// normalised + innermost library function on the stack.
+func panicKey(p interface{}, stack []byte) string {
+	msg := fmt.Sprint(p)
+	if len(msg) > 60 {
+		msg = msg[:60]
+	}
+	msg = digits.ReplaceAllString(msg, "N")
+	fn := ""
+	for _, m := range frameRe.FindAll(stack, -1) {
+		f := string(m)
+		if strings.Contains(f, "/internal/verif/") {
+			continue
+		}
+		fn = strings.TrimPrefix(f, "capnproto.org/go/capnp/v3")
+		break
+	}
+	return "panic:" + msg + "@" + fn
+}
+
+func walkOne(r *vlib.Rec, mem *hostile.Mem, contents [][]byte, framing int, arena capnp.Arena, lim limits, md mode, expensive bool) (objs int) {
 	ctx := hostile.FramingName[framing] + " " + lim.String()
+	defer func() {
+		if p := recover(); p != nil {
+			st := debug.Stack()
+			if len(st) > 2500 {
+				st = st[:2500]
+			}
+			r.Fail(panicKey(p, st), fmt.Sprintf("%s segments=%s: panic: %v\n%s", ctx, hexSegs(contents), p, st))
+			objs = 1 // the message did hand out something before it panicked (or Root itself panicked): keep exploring the other configurations
+		}
+	}()
 	var op *hostile.Opened
 	if arena != nil {
 		// caller-built arena over slab segments
@@ -375,7 +430,7 @@ func walkOne(r *vlib.Rec, mem *hostile.Mem, contents [][]byte, framing int, aren
 	}
 	op.Msg.TraverseLimit = lim.T
 	op.Msg.DepthLimit = lim.D
-	w := &walker{r: r, op: op, ctx: ctx, src: contents, budget: 300, expensive: expensive, typed: typed}
+	w := &walker{r: r, op: op, ctx: ctx, src: contents, budget: 120, expensive: expensive, md: md}
 	p, err := op.Msg.Root()
 	if err != nil {
 		if framing == hostile.FBare && lim == allLimits[0] {
@@ -407,11 +462,41 @@ func isExpensive(contents [][]byte) bool {
 	return cyclic || v >= 400
 }
 
-// runMessage is one case: all framings x limit configurations.
-func runMessage(r *vlib.Rec, mem *hostile.Mem, contents [][]byte, framings []int) {
+// plan says how much of the framing x limits x consumer matrix a family
+// applies to each message.
+type plan struct {
+	// product: every framing x every limit configuration with the untyped
+	// consumers.  Otherwise non-default limits are applied under the first
+	// framing only and the stream framings get the accessor walk only (the
+	// framings differ only in how segment memory is obtained, the limits only
+	// in what the reader does with it).
+	product bool
+	ref     mode  // first framing, default limits
+	lim     mode  // first framing, limit configurations in typedLimits
+	typedAt []int // indices into allLimits that get `lim`; others get untyped
+}
+
+var (
+	planSmall      = plan{product: true, ref: typedAll, lim: typedAll, typedAt: []int{2, 4}}
+	planBig        = plan{product: false, ref: typedZ, lim: typedZ, typedAt: []int{2, 4}}
+	planTypedZ     = plan{product: false, ref: typedZ, lim: typedZ, typedAt: []int{2, 4}}
+	planTypedPlain = plan{product: false, ref: typedPlain, lim: typedPlain, typedAt: []int{2, 4}}
+)
+
+func inInts(xs []int, x int) bool {
+	for _, y := range xs {
+		if x == y {
+			return true
+		}
+	}
+	return false
+}
+
+// runMessage is one case: framings x limit configurations.
+func runMessage(r *vlib.Rec, mem *hostile.Mem, contents [][]byte, framings []int, pl plan) {
 	expensive := isExpensive(contents)
 	// reference walk
-	n := walkOne(r, mem, contents, framings[0], nil, allLimits[0], true, expensive)
+	n := walkOne(r, mem, contents, framings[0], nil, allLimits[0], pl.ref, expensive)
 	if n > 0 {
 		r.NonTrivial()
 		r.Note("objects_handed_out_reference_walk", int64(n))
@@ -424,12 +509,22 @@ func runMessage(r *vlib.Rec, mem *hostile.Mem, contents [][]byte, framings []int
 			if fi == 0 && li == 0 {
 				continue
 			}
+			if !pl.product && fi > 0 && li > 0 {
+				continue
+			}
 			if n == 0 && li > 0 {
 				// nothing was handed out under the default limits: the limits are
 				// never consulted (all failures precede the budget / depth checks)
 				continue
 			}
-			walkOne(r, mem, contents, f, nil, lim, fi == 0, expensive)
+			md := untyped
+			switch {
+			case fi == 0 && inInts(pl.typedAt, li):
+				md = pl.lim
+			case !pl.product && f != hostile.FBare && f != hostile.FHarness:
+				md = accessorsOnly
+			}
+			walkOne(r, mem, contents, f, nil, lim, md, expensive)
 		}
 	}
 }
@@ -446,10 +541,18 @@ func mem() *hostile.Mem {
 }
 
 func spaceFamily(sp *space, framings []int) vlib.Family {
+	words := 0
+	for _, L := range sp.segWords {
+		words += L
+	}
+	pl := planBig
+	if words <= 2 {
+		pl = planSmall
+	}
 	return vlib.Family{
 		Name: sp.name, N: sp.n,
 		Run: func(i int64, r *vlib.Rec) {
-			runMessage(r, mem(), sp.contents(i), framings)
+			runMessage(r, mem(), sp.contents(i), framings, pl)
 		},
 		Describe: func(i int64) interface{} {
 			return map[string]interface{}{"segment_bytes": sp.segBytes, "segments_hex": hexSegs(sp.contents(i))}
@@ -459,10 +562,17 @@ func spaceFamily(sp *space, framings []int) vlib.Family {
 
 // ---- odd byte lengths (SingleSegment accepts them) ----
 
-func oddFamily() vlib.Family {
+func oddFamily(thorough bool) vlib.Family {
 	var sps []*space
 	for _, nb := range []int{4, 12, 20} {
-		sp := newSpace(fmt.Sprintf("odd-%d", nb), []int{(nb + 7) / 8}, hostile.Core)
+		level := hostile.Core
+		if nb == 20 {
+			level = hostile.Micro
+			if thorough {
+				level = hostile.Mini
+			}
+		}
+		sp := newSpace(fmt.Sprintf("odd-%d", nb), []int{(nb + 7) / 8}, level)
 		sp.segBytes = []int{nb}
 		sps = append(sps, sp)
 	}
@@ -483,7 +593,7 @@ func oddFamily() vlib.Family {
 		Name: "odd-byte-lengths", N: total,
 		Run: func(i int64, r *vlib.Rec) {
 			sp, k := pick(i)
-			runMessage(r, mem(), sp.contents(k), []int{hostile.FBare, hostile.FHarness})
+			runMessage(r, mem(), sp.contents(k), []int{hostile.FBare, hostile.FHarness}, planBig)
 		},
 		Describe: func(i int64) interface{} {
 			sp, k := pick(i)
@@ -514,7 +624,7 @@ func arenaFaultFamily(sp *space) vlib.Family {
 			exp := isExpensive(contents)
 			for _, lim := range []limits{allLimits[0], allLimits[4]} {
 				a := &hostile.HArena{Segs: segs, N: v.n, FailID: v.fail}
-				if walkOne(r, mem(), segs, hostile.FHarness, a, lim, false, exp) > 0 && lim == allLimits[0] {
+				if walkOne(r, mem(), segs, hostile.FHarness, a, lim, untyped, exp) > 0 && lim == allLimits[0] {
 					r.NonTrivial()
 				}
 			}
@@ -596,17 +706,17 @@ func largeFamily() vlib.Family {
 			contents := build(i)
 			// bare + one stream framing; every limit configuration
 			exp := true
-			k := walkOne(r, largeMem, contents, hostile.FBare, nil, allLimits[0], true, exp)
+			k := walkOne(r, largeMem, contents, hostile.FBare, nil, allLimits[0], typedAll, exp)
 			if k > 0 {
 				r.NonTrivial()
 			}
 			for li, lim := range allLimits {
 				if li > 0 {
-					walkOne(r, largeMem, contents, hostile.FBare, nil, lim, false, exp)
+					walkOne(r, largeMem, contents, hostile.FBare, nil, lim, untyped, exp)
 				}
 			}
-			walkOne(r, largeMem, contents, hostile.FUnmarshal, nil, allLimits[0], false, exp)
-			walkOne(r, largeMem, contents, hostile.FPackedDecoder, nil, allLimits[0], false, exp)
+			walkOne(r, largeMem, contents, hostile.FUnmarshal, nil, allLimits[0], untyped, exp)
+			walkOne(r, largeMem, contents, hostile.FPackedDecoder, nil, allLimits[0], accessorsOnly, exp)
 		},
 		Describe: func(i int64) interface{} {
 			c := build(i)
@@ -648,48 +758,231 @@ func selfTest() error {
 	return nil
 }
 
+func cfgName(prefix string, m []int, level int) string {
+	lv := map[int]string{hostile.Micro: "micro", hostile.Mini: "mini", hostile.Core: "core", hostile.Full: "full"}[level]
+	return prefix + strings.Trim(strings.Replace(fmt.Sprint(m), " ", "-", -1), "[]") + "-" + lv
+}
+
 func families(tier string) []vlib.Family {
 	var fams []vlib.Family
-	add := func(sp *space) { fams = append(fams, spaceFamily(sp, stdFramings)) }
-	fams = append(fams, spaceFamily(newSpace("seg0-empty", []int{0}, hostile.Full), stdFramings))
-	add(newSpace("seg1-w1-full", []int{1}, hostile.Full))
-	add(newSpace("seg1-w2-full", []int{2}, hostile.Full))
-	fams = append(fams, oddFamily())
-	// multi-segment, core alphabet
-	multi := [][]int{{1, 1}, {0, 1}, {1, 0}, {1, 2}, {2, 1}, {1, 1, 1}}
-	if tier == "thorough" {
-		multi = append(multi, []int{1, 3}, []int{2, 2}, []int{3, 1}, []int{1, 1, 2}, []int{1, 2, 1}, []int{2, 1, 1}, []int{1, 0, 1}, []int{0, 2}, []int{0, 1, 1})
+	add := func(prefix string, m []int, level int) {
+		fams = append(fams, spaceFamily(newSpace(cfgName(prefix, m, level), m, level), stdFramings))
 	}
-	for _, m := range multi {
-		add(newSpace("multi-"+strings.Trim(strings.Replace(fmt.Sprint(m), " ", "-", -1), "[]"), m, hostile.Core))
+	thorough := tier == "thorough"
+	add("seg-", []int{0}, hostile.Full)
+	add("seg-", []int{1}, hostile.Full)
+	add("seg-", []int{2}, hostile.Full)
+	fams = append(fams, cycleFamily())
+	fams = append(fams, oddFamily(thorough))
+	add("multi-", []int{1, 1}, hostile.Core)
+	add("multi-", []int{0, 1}, hostile.Core)
+	add("multi-", []int{1, 0}, hostile.Core)
+	lvl := hostile.Micro
+	if thorough {
+		lvl = hostile.Mini
 	}
-	fams = append(fams, arenaFaultFamily(newSpace("1-1", []int{1, 1}, hostile.Core)))
-	if tier == "thorough" {
-		fams = append(fams, arenaFaultFamily(newSpace("1-2", []int{1, 2}, hostile.Core)))
-		fams = append(fams, arenaFaultFamily(newSpace("2", []int{2}, hostile.Core)))
+	add("multi-", []int{1, 2}, lvl)
+	add("multi-", []int{2, 1}, lvl)
+	add("multi-", []int{1, 1, 1}, lvl)
+	if thorough {
+		add("multi-", []int{0, 2}, hostile.Core)
+		add("multi-", []int{1, 0, 1}, hostile.Core)
+		add("multi-", []int{0, 1, 1}, hostile.Core)
+		add("multi-", []int{2, 2}, hostile.Micro)
+		add("multi-", []int{1, 3}, hostile.Micro)
+		add("multi-", []int{1, 1, 2}, hostile.Micro)
 	}
-	if tier == "thorough" {
-		add(newSpace("seg1-w3-full", []int{3}, hostile.Full))
-		add(newSpace("seg1-w4-core", []int{4}, hostile.Core))
+	fams = append(fams, arenaFaultFamily(newSpace(cfgName("", []int{1, 1}, hostile.Mini), []int{1, 1}, hostile.Mini)))
+	fams = append(fams, typedZFamily(lvl), typedPlainFamily(lvl))
+	if thorough {
+		fams = append(fams, arenaFaultFamily(newSpace(cfgName("", []int{1, 2}, hostile.Micro), []int{1, 2}, hostile.Micro)))
+		fams = append(fams, arenaFaultFamily(newSpace(cfgName("", []int{2}, hostile.Core), []int{2}, hostile.Core)))
+		add("seg-", []int{3}, hostile.Full)
+		add("seg-", []int{4}, hostile.Micro)
 		fams = append(fams, largeFamily())
 	} else {
-		add(newSpace("seg1-w3-core", []int{3}, hostile.Core))
+		add("seg-", []int{3}, hostile.Mini)
 	}
 	if os.Getenv("C01_SIZES") != "" {
+		t := int64(0)
 		for _, f := range fams {
 			fmt.Fprintf(os.Stderr, "family %-28s N=%d\n", f.Name, f.N)
+			t += f.N
 		}
+		fmt.Fprintf(os.Stderr, "total %d\n", t)
 	}
 	return fams
 }
 
+// ---- schema-shaped messages for the typed consumers ----
+
+// typedZFamily: root struct (1 data word, 1 pointer) whose data word carries
+// every Z union discriminant, pointer word and the word behind it from the
+// alphabet: every Z field type against every pointer kind.
+func typedZFamily(level int) vlib.Family {
+	segLens := []int{4}
+	a2 := hostile.Alphabet(segLens, 0, 2, level)
+	a3 := hostile.Alphabet(segLens, 0, 3, level)
+	var whichs []uint64
+	for w := uint64(0); w <= 50; w++ {
+		whichs = append(whichs, w)
+	}
+	whichs = append(whichs, 0xFFFF)
+	n := int64(len(whichs) * len(a2) * len(a3))
+	build := func(i int64) [][]byte {
+		b := make([]byte, 32)
+		binary.LittleEndian.PutUint64(b[0:], hostile.StructPtr(0, 1, 1))
+		binary.LittleEndian.PutUint64(b[8:], whichs[i%int64(len(whichs))])
+		i /= int64(len(whichs))
+		binary.LittleEndian.PutUint64(b[16:], a2[i%int64(len(a2))])
+		i /= int64(len(a2))
+		binary.LittleEndian.PutUint64(b[24:], a3[i])
+		return [][]byte{b}
+	}
+	return vlib.Family{
+		Name: "typed-Z", N: n,
+		Run: func(i int64, r *vlib.Rec) {
+			runMessage(r, mem(), build(i), []int{hostile.FBare, hostile.FUnmarshal}, planTypedZ)
+		},
+		Describe: func(i int64) interface{} { return map[string]interface{}{"segments_hex": hexSegs(build(i))} },
+	}
+}
+
+// typedPlainFamily: root struct with three pointers (Counter / HoldsText /
+// Regression / PlaneBase shaped), one slot at a time taken from the alphabet
+// together with the word behind the struct.
+func typedPlainFamily(level int) vlib.Family {
+	segLens := []int{5}
+	var as [3][]uint64
+	for k := 0; k < 3; k++ {
+		as[k] = hostile.Alphabet(segLens, 0, 1+k, level)
+	}
+	a4 := hostile.Alphabet(segLens, 0, 4, level)
+	n := int64(0)
+	for k := 0; k < 3; k++ {
+		n += int64(len(as[k]) * len(a4))
+	}
+	build := func(i int64) [][]byte {
+		b := make([]byte, 40)
+		binary.LittleEndian.PutUint64(b[0:], hostile.StructPtr(0, 0, 3))
+		for k := 0; k < 3; k++ {
+			m := int64(len(as[k]) * len(a4))
+			if i < m {
+				binary.LittleEndian.PutUint64(b[8+8*k:], as[k][i%int64(len(as[k]))])
+				binary.LittleEndian.PutUint64(b[32:], a4[i/int64(len(as[k]))])
+				break
+			}
+			i -= m
+		}
+		return [][]byte{b}
+	}
+	return vlib.Family{
+		Name: "typed-plain", N: n,
+		Run: func(i int64, r *vlib.Rec) {
+			runMessage(r, mem(), build(i), []int{hostile.FBare, hostile.FUnmarshal}, planTypedPlain)
+		},
+		Describe: func(i int64) interface{} { return map[string]interface{}{"segments_hex": hexSegs(build(i))} },
+	}
+}
+
+// cycleFamily: every 1-segment message of <= 2 words over the pointer-only
+// alphabet whose pointer graph is a single-path cycle, default limits and
+// D=3, recursive consumers with the FULL default traversal budget (no
+// clamp): only the depth limit stands between a consumer and unbounded
+// recursion, which overflows the stack (48 MiB cap, a Go fatal error).  Each
+// case therefore runs in a child process of its own; a dead child is a
+// violation of this case and costs the runner nothing.
+func cycleFamily() vlib.Family {
+	a0 := hostile.PointerOnly(2, 0)
+	a1 := hostile.PointerOnly(2, 1)
+	n := int64(len(a0) + len(a0)*len(a1))
+	build := func(i int64) [][]byte {
+		if i < int64(len(a0)) {
+			b := make([]byte, 8)
+			binary.LittleEndian.PutUint64(b, a0[i])
+			return [][]byte{b}
+		}
+		i -= int64(len(a0))
+		b := make([]byte, 16)
+		binary.LittleEndian.PutUint64(b[0:], a0[i%int64(len(a0))])
+		binary.LittleEndian.PutUint64(b[8:], a1[i/int64(len(a0))])
+		return [][]byte{b}
+	}
+	return vlib.Family{
+		Name: "cycles-unclamped-isolated", N: n,
+		Run: func(i int64, r *vlib.Rec) {
+			c := build(i)
+			// fan-out 1 only: with fan-out 2 a correct depth limit of 64 still
+			// allows 2^64 visits (bounded only by the traversal budget)
+			v, cyc := hostile.Unfold(c, 64, 400)
+			if !cyc || v > 70 {
+				r.Outcome("cycles: acyclic or branching, skipped here")
+				return
+			}
+			r.NonTrivial()
+			for _, li := range []int{0, 3} {
+				ok, class, step, detail := hostile.RunChild(fmt.Sprintf("%d|%s", li, hex.EncodeToString(c[0])), 100*time.Second)
+				if ok {
+					r.Outcome("cycles: all consumers returned under the full budget")
+					continue
+				}
+				r.Fail("unclamped-consumer-dies/"+step+"/"+class,
+					fmt.Sprintf("bare %s segments=%s: %s on the root object with the default 64 MiB traversal budget kills the process (%s)\n%s", allLimits[li], hexSegs(c), step, class, detail))
+			}
+		},
+		Describe: func(i int64) interface{} { return map[string]interface{}{"segments_hex": hexSegs(build(i))} },
+	}
+}
+
+func childMain(payload string) {
+	parts := strings.Split(payload, "|")
+	var li int
+	fmt.Sscan(parts[0], &li)
+	b, err := hex.DecodeString(parts[1])
+	if err != nil {
+		fmt.Fprintln(os.Stderr, "bad payload")
+		os.Exit(3)
+	}
+	m := &capnp.Message{Arena: capnp.SingleSegment(b), TraverseLimit: allLimits[li].T, DepthLimit: allLimits[li].D}
+	root, err := m.Root()
+	if err != nil || !root.IsValid() {
+		os.Exit(0)
+	}
+	hostile.ChildStep("Equal")
+	capnp.Equal(root, root)
+	hostile.ChildStep("SetRoot")
+	if m2, _, err := capnp.NewMessage(capnp.SingleSegment(nil)); err == nil {
+		m2.SetRoot(root)
+	}
+	if s := root.Struct(); s.IsValid() {
+		hostile.ChildStep("Canonicalize")
+		capnp.Canonicalize(s)
+		hostile.ChildStep("text.Marshal")
+		hostile.TextMarshal(hostile.Types[0], s)
+		hostile.ChildStep("pogs.Extract")
+		hostile.PogsExtract(hostile.Types[0], s)
+	}
+	os.Exit(0)
+}
+
 func main() {
+	if p := hostile.ChildPayload(); p != "" {
+		childMain(p)
+		return
+	}
+	if f := os.Getenv("VERIF_CPUPROFILE"); f != "" {
+		if fh, err := os.Create(f); err == nil {
+			pprof.StartCPUProfile(fh)
+			go func() { time.Sleep(20 * time.Second); pprof.StopCPUProfile(); fh.Close() }()
+		}
+	}
+	debug.SetGCPercent(800)
 	vlib.Main(vlib.Spec{
 		ID:    "C01",
 		Level: "exploration",
-		Rule: "bounded-exhaustive enumeration of messages = segment configuration x words from a per-position boundary-complete alphabet (package hostile: every pointer kind with start or end of the referenced region on every word boundary in [-1,L+1], field extrema, composite tags incl. zero-size x count -1, far/double-far to every segment id incl. out of range and every landing word, capability and unknown pointers, data words); every message under bare Single/MultiSegment arenas, a harness Arena, Unmarshal, UnmarshalPacked(ref.Pack), NewDecoder, NewPackedDecoder and a buffer-reusing Decoder; messages that hand out at least one object additionally under T in {default,64,2^40} x D in {default,3}; a walker applies the read-side API (Root, struct accessors, every list wrapper Len/At(0)/At(Len-1)/String, Text/Data, Equal, Canonicalize, SetRoot deep copy into fresh Single/Multi messages, text.Marshal and pogs.Extract as Z/PlaneBase/Regression/HoldsText/Counter) to everything reachable to depth 6. A message is non-trivial if the library handed out at least one non-null object for it.",
+		Rule:  "bounded-exhaustive enumeration of messages = segment configuration x words from a per-position boundary-complete alphabet (package hostile: every pointer kind with start or end of the referenced region on every word boundary in [-1,L+1], field extrema, composite tags incl. zero-size x count -1, far/double-far to every segment id incl. out of range and every landing word, capability and unknown pointers, data words); every message under bare Single/MultiSegment arenas, a harness Arena, Unmarshal, UnmarshalPacked(ref.Pack), NewDecoder, NewPackedDecoder and a buffer-reusing Decoder; messages that hand out at least one object additionally under T in {default,64,2^40} x D in {default,3}; a walker applies the read-side API (Root, struct accessors, every list wrapper Len/At(0)/At(Len-1)/String, Text/Data, Equal, Canonicalize, SetRoot deep copy into fresh Single/Multi messages, text.Marshal and pogs.Extract as Z/PlaneBase/Regression/HoldsText/Counter) to everything reachable to depth 6. A message is non-trivial if the library handed out at least one non-null object for it.",
 		Assumptions: []string{
-			"recursive consumers (Equal, SetRoot, Canonicalize, text, pogs) run with the traversal budget clamped to 8 KiB on messages that declare lists of more than 1024 elements or whose unfolded pointer graph has >= 400 nodes (time/memory at the default 64 MiB budget is otherwise exponential in the depth limit); the budget accounting itself is C02's subject",
+			"recursive consumers (Equal, SetRoot, Canonicalize, text, pogs) run with the traversal budget clamped to 4 KiB on messages that declare lists of more than 1024 elements or whose unfolded pointer graph has >= 400 nodes (time/memory at the default 64 MiB budget is otherwise exponential in the depth limit); the budget accounting itself is C02's subject",
 			"limit configurations other than the default are applied only to messages for which the default configuration hands out at least one object (every earlier failure precedes the budget and depth checks in segment.go readPtr)",
 			"list elements other than index 0 and Len-1 are not touched; documented programmer-error panics (index >= Len, setters) are never provoked",
 		},
